@@ -1919,6 +1919,28 @@ fn search_lex(budget: usize, seed: u64) -> Option<Fail> {
             }
         }
     }
+    // all strings of up to 3 (thorough: 4) CHARACTERS over a character alphabet: what the lexeme alphabet cannot produce
+    // (a lone quote / brace / apostrophe between arbitrary neighbours, control characters, mixed-script words and numbers)
+    let chars: Vec<char> = "ab_1 9'\"{}()[],#-!&|^*+=<>@;.:?/\\~$%\0\t\n\ré٣９Ωß".chars().collect();
+    for a in &chars {
+        for b in &chars {
+            if let Some(f) = case_lex(&format!("{a}{b}")) {
+                return Some(f);
+            }
+            for c in &chars {
+                if let Some(f) = case_lex(&format!("{a}{b}{c}")) {
+                    return Some(f);
+                }
+                if budget >= 20000 {
+                    for d in ['a', '1', '\'', '"', '{', '}', '<', '=', '>', ' ', '\0', '٣'] {
+                        if let Some(f) = case_lex(&format!("{a}{b}{c}{d}")) {
+                            return Some(f);
+                        }
+                    }
+                }
+            }
+        }
+    }
     let mut rng = Rng(seed | 1);
     for _ in 0..budget {
         let n = 4 + rng.below(8);
